@@ -132,12 +132,28 @@ func runC13(p *core.Prog, r *core.Report, tier string) {
 				arg := ci.Common().Args[0]
 				for i, lf := range core.PhiLeaves(arg, ci.(ssa.Instruction)) {
 					construct := fmt.Sprintf("%s|%s|specifier#%d", tag, core.FnKey(f), i+1)
-					call, ok := lf.V.(*ssa.Call)
+					// Sprintf(format, ...) possibly followed by constant suffixes (spec += "$")
+					tail := ""
+					lv := lf.V
+					for {
+						bo, isAdd := lv.(*ssa.BinOp)
+						if !isAdd || bo.Op != token.ADD {
+							break
+						}
+						cs, isConst := constString(bo.Y)
+						if !isConst {
+							break
+						}
+						tail = cs + tail
+						lv = bo.X
+					}
+					call, ok := lv.(*ssa.Call)
 					if !ok || call.Call.StaticCallee() == nil || call.Call.StaticCallee().Name() != "Sprintf" {
 						r.Violate("C13.a", construct, p.Pos(ci.Pos()), "the compiled specifier is not built from a constant format: "+ds.D(lf.V).String())
 						continue
 					}
 					format, _ := constString(call.Call.Args[0])
+					format += tail
 					okStart := strings.HasPrefix(format, "^")
 					okJoin := strings.Contains(format, "%s/%s")
 					okEnd := strings.HasSuffix(format, "$")
@@ -391,7 +407,10 @@ func runC13(p *core.Prog, r *core.Report, tier string) {
 			if c.Op == "" || c.X.Kind != "len" || c.Y.Kind != "const" || c.Y.Name != "0" {
 				return -1
 			}
-			isOld := c.X.Args[0].Kind == "field"
+			// the known list is a field of the service itself; anything else (a local, a field of a local
+			// accumulator) is the freshly fetched one
+			a0 := c.X.Args[0]
+			isOld := a0.Kind == "field" && len(a0.Args) == 1 && a0.Args[0].Kind == "param" && len(f.Params) > 0 && a0.Args[0].Name == f.Params[0].Name()
 			for s := 0; s < 2; s++ {
 				rel := c.RelOnEdge(s)
 				if !isOld && (rel == "!=" || rel == ">") {
